@@ -667,6 +667,163 @@ def _expected_configs(theory, card, route):
     return want
 
 
+_VIA = {"commons": "commons.interpolator(card)", "evolve": "runner.parts.evolve -> Operator(managers.interpolator)",
+        "match": "runner.parts.match -> OperatorMatrixElement(managers.interpolator)"}
+
+# ---- two cards in one process --------------------------------------------------------------------------------
+_DIFFER = {"is_log": ("is_log", "b"), "degree": ("deg", "i"), "grid_flag": ("xlog", "b"), "grid_point": ("x1", "f")}
+
+
+class _SecondCard:
+    """value factory for card B: the same leaves as card A except the one named, which becomes B_<name>"""
+
+    def __init__(self, mk, name):
+        self.mk, self.name = mk, name
+        self.symbolic = mk.symbolic
+
+    def _differs(self, mkv):
+        if self.symbolic:  # stated as soon as the leaf exists, before any branch on it
+            S.assume_z3(mkv("B_" + self.name) != mkv(self.name))
+
+    def float(self, name, default=None, positive=False, tag=None):
+        if name == self.name:
+            x = self.mk.float("B_" + name, None if default is None else default * 1.5, positive, tag)
+            self._differs(z3.Real)
+            return x
+        return self.mk.float(name, default, positive, tag)
+
+    def int(self, name, default=None, lo=None, hi=None, tag=None):
+        if name == self.name:
+            d = 1 if default is None else default
+            x = self.mk.int("B_" + name, d - 1 if (lo is None or d - 1 >= lo) else d + 1, lo, hi, tag)
+            self._differs(z3.Int)
+            return x
+        return self.mk.int(name, default, lo, hi, tag)
+
+    def bool(self, name, default=None, tag=None):
+        if name == self.name:
+            x = self.mk.bool("B_" + name, not default, tag)
+            self._differs(z3.Bool)
+            return x
+        return self.mk.bool(name, default, tag)
+
+    def array(self, *a, **k):
+        return self.mk.array(*a, **k)
+
+    def increasing(self, xs):
+        return self.mk.increasing(xs)
+
+
+def _two_cards(mk, var):
+    name, kind = _DIFFER[var["differ"]]
+    build = (lambda m: b_operator(m, dict(var, sorted=True))) if var["source"] == "object" else (lambda m: OperatorCard.from_dict(_raw_operator(m, var)))
+    card_a = build(mk)
+    card_b = build(_SecondCard(mk, name))
+    return card_a, card_b
+
+
+def _get_dispatcher(route, commons, parts, theory, card):
+    if route == "commons":
+        return commons.interpolator(card)
+    return _through_runner(parts, route, theory, card)[1].interpolator
+
+
+def case_sequence(log, var):
+    """interpolator(card_A) then interpolator(card_B) in one process: each result as in a fresh process"""
+    import importlib
+
+    _start(log)
+    dl, ip, rc, mt, cnp = _setup()
+    commons = importlib.import_module("eko.runner.commons")
+    commons.np = cnp
+    ip.BasisFunction = _BasisRecorder
+    route = var.get("route", "commons")
+    parts = _parts_module(cnp) if route != "commons" else None
+    log.encode(commons.interpolator, ip.InterpolatorDispatcher.__init__)
+    if parts is not None:
+        log.encode(parts._managers, parts.evolve, parts.match)
+    snap = CS.snapshot_state(*([commons, ip] + ([parts] if parts is not None else [])))
+    n = var.get("n", 4)
+    via = _VIA[route]
+    kpre = ("interpolator" if route == "commons" else "runner.parts") + "-sequence:"
+
+    def run():
+        CS.restore_state(snap)
+        mk = CS.SymMk("py")
+        card_a, card_b = _two_cards(mk, var)
+        theory = b_theory(mk, {"k": 0}) if route != "commons" else None
+        rk = {"var": var}
+        try:
+            d_a = _get_dispatcher(route, commons, parts, theory, card_a)
+            d_b = _get_dispatcher(route, commons, parts, theory, card_b)
+        except Exception as e:
+            if _engine_exc(e):
+                raise
+            v = prove_formula(z3.BoolVal(False), "%s for card A then card B is computed (raised %s: %s)" % (via, type(e).__name__, e))
+            _decide(log, v, key=kpre + "raises", replay=(MOD, "replay_sequence", dict(rk, aspect="raises", which="B")), candidates=[{}])
+            return None
+        for which, disp, card in (("B", d_b, card_b), ("A", d_a, card_a)):
+            label = "%s, cards A then B differing in %s, result for card %s%s" % (via, var["differ"], which, " (looked at after the call for B)" if which == "A" else "")
+            is_log, deg = card.configs.interpolation_is_log, card.configs.interpolation_polynomial_degree
+            for aspect, build_cmp in (
+                ("log", lambda c: c.leaf(disp.log, is_log, "log")),
+                ("degree", lambda c: c.leaf(disp.polynomial_degree, deg, "degree")),
+                ("nodes", lambda c: c.same(disp.xgrid.raw, card.xgrid.raw, "nodes")),
+                ("basis", lambda c: [c.leaf(bf._mode_log, is_log, "basis.mode_log") for bf in disp.basis] if len(disp.basis) == n else c.mismatch.append("%d basis functions" % len(disp.basis))),
+            ):
+                c = CS.Cmp()
+                build_cmp(c)
+                v = prove_formula(c.formula() if not c.mismatch else z3.BoolVal(False), "%s: %s is the card's %s" % (label, aspect, c.mismatch[:1] or ""))
+                _decide(log, v, key=kpre + ("log" if aspect == "basis" else aspect), replay=(MOD, "replay_sequence", dict(rk, aspect=aspect, which=which)), candidates=[{}])
+        log.twin("domain")
+        log.collect_ctx()
+
+    _r, pm = explore(run, max_paths=512)
+    log.path_stats(pm)
+
+
+def replay_sequence(point, var, aspect, which):
+    """the same sequence on the real code, in one (fresh) process"""
+    from eko.runner import commons
+
+    route = var.get("route", "commons")
+    try:
+        card_a, card_b = _two_cards(CS.ConcMk(point, "py"), var)
+    except Exception:
+        return None
+    name = _DIFFER[var["differ"]][0]
+    for card in (card_a, card_b):
+        if not 1 <= int(card.configs.interpolation_polynomial_degree) < len(card.xgrid):
+            return None
+    parts = _parts_module() if route != "commons" else None
+    theory = b_theory(CS.ConcMk({}, "py"), {"k": 0}) if route != "commons" else None
+    try:
+        d_a = _get_dispatcher(route, commons, parts, theory, card_a)
+        d_b = _get_dispatcher(route, commons, parts, theory, card_b)
+    except Exception as e:
+        return {"detail": "%s for two cards differing in %s raised %s: %s" % (_VIA[route], name, type(e).__name__, e)} if aspect == "raises" else None
+    if aspect == "raises":
+        return None
+    disp, card = (d_b, card_b) if which == "B" else (d_a, card_a)
+    desc = lambda c: "(xgrid.log=%r, interpolation_is_log=%r, degree=%r, grid=%r)" % (  # noqa: E731
+        bool(c.xgrid.log), bool(c.configs.interpolation_is_log), int(c.configs.interpolation_polynomial_degree), np.asarray(c.xgrid.raw).tolist())
+    origin = "%s called for card A %s and then for card B %s in one process; for card %s" % (_VIA[route], desc(card_a), desc(card_b), which)
+    is_log, deg = bool(card.configs.interpolation_is_log), int(card.configs.interpolation_polynomial_degree)
+    if aspect == "log" and bool(disp.log) != is_log:
+        return {"detail": "%s: .log = %r" % (origin, disp.log)}
+    if aspect == "degree" and int(disp.polynomial_degree) != deg:
+        return {"detail": "%s: .polynomial_degree = %r" % (origin, disp.polynomial_degree)}
+    if aspect == "nodes":
+        got, want = np.asarray(disp.xgrid.raw, dtype=float), np.asarray(card.xgrid.raw, dtype=float)
+        if got.shape != want.shape or not np.allclose(got, want, rtol=1e-10, atol=0.0):
+            return {"detail": "%s: nodes %r" % (origin, got.tolist())}
+    if aspect == "basis":
+        modes = [bool(bf._mode_log) for bf in disp.basis]
+        if len(modes) != len(card.xgrid) or any(m != is_log for m in modes):
+            return {"detail": "%s: basis functions built with mode_log = %r" % (origin, modes)}
+    return None
+
+
 def case_interpolator(log, var):
     import importlib
 
@@ -682,10 +839,11 @@ def case_interpolator(log, var):
     if route != "commons":
         parts = _parts_module(cnp)
         log.encode(parts._managers, parts._evolve_configs, parts._matching_configs, parts.evolve, parts.match)
-    via = {"commons": "commons.interpolator(card)", "evolve": "runner.parts.evolve -> Operator(managers.interpolator)",
-           "match": "runner.parts.match -> OperatorMatrixElement(managers.interpolator)"}[route]
+    via = _VIA[route]
+    snap = CS.snapshot_state(*([commons, ip] + ([parts] if parts is not None else [])))
 
     def run():
+        CS.restore_state(snap)  # every path is a fresh process as far as module-level state goes
         mk = CS.SymMk(var.get("flavour", "py"))
         if var["source"] == "object":
             card = b_operator(mk, dict(var, sorted=True))
@@ -1171,6 +1329,9 @@ def main():
         "synthetic DictLike classes: one per field kind (scalars, np.ndarray / npt.NDArray / npt.NDArray[float64] / Optional[NDArray], tuple, enum, nested "
         "DictLike + list of DictLike + plain dataclass, Optional[...], List[...], dict, XGrid, NewType, defaults)",
         "interpolator: cards given as objects (grid flag and interpolation_is_log independent) and as raw runcards, degree symbolic in 1..n-1; "
+        "sequences: interpolator for card A then for card B in one process (also through parts.evolve / parts.match), the cards sharing every leaf "
+        "except one interpolation setting (interpolation_is_log, degree, the grid object's flag, one grid point), each result required to be the "
+        "card's own; every explored path and every replay starts from the import-time state of the modules",
         "obtained from commons.interpolator and from what runner.parts.evolve / runner.parts.match hand to Operator / OperatorMatrixElement "
         "(the only readers of the interpolation settings under src/eko/runner), together with the configs dictionary they pass",
     ]
@@ -1187,6 +1348,9 @@ def main():
         "conversion table to typed symbolic leaves (value unchanged, type tag -> python); validated against the real code at one model point per case",
         "numpy: array()/tolist()/unique()/log() on leaves modelled by dtype promotion (bool < int64 < float64), exact values, np.unique = sort + drop equal by "
         "forking on comparisons",
+        "hashing / equality of symbolic leaves inside containers (dict keys) is structural: the same symbolic expression is the same key, different "
+        "symbols are different keys (the sequence cases assume the differing setting differs); ndarray.tobytes of a symbolic array is a canonical "
+        "rendering of its contents",
         "interpolation.BasisFunction replaced by a recorder of (poly_number, blocks, mode_log) in the interpolator cases",
         "runner.parts cases: evolution_operator.Operator / OperatorMatrixElement replaced by a probe recording (configs, managers) and stopping "
         "before compute(); commons.atlas / commons.couplings replaced by placeholders (also in the replays); the EKO is a namespace holding the two cards",
@@ -1255,6 +1419,19 @@ def main():
     for route in ("evolve", "match"):
         chk.case("runner.parts.%s.raw-card" % route, case_interpolator, var={"source": "raw", "n": 4, "route": route})
         chk.case("runner.parts.%s.object" % route, case_interpolator, var={"source": "object", "n": 4, "k": 0, "nmu": 1, "route": route})
+    # two cards in one process (state the code may keep between calls)
+    for differ in ("is_log", "grid_flag", "grid_point"):
+        chk.case("sequence.commons.%s" % differ, case_sequence, var={"source": "object", "n": 4, "k": 0, "nmu": 1, "differ": differ})
+    chk.case("sequence.commons.degree", case_sequence, var={"source": "raw", "n": 3, "differ": "degree"})
+    chk.case("sequence.commons.raw-card.is_log", case_sequence, var={"source": "raw", "n": 4, "differ": "is_log"})
+    for route in ("evolve", "match"):
+        chk.case("sequence.runner.parts.%s.is_log" % route, case_sequence, var={"source": "object", "n": 4, "k": 0, "nmu": 1, "differ": "is_log", "route": route})
+    if thorough:
+        for route in ("evolve", "match"):
+            for differ in ("grid_flag", "grid_point"):
+                chk.case("sequence.runner.parts.%s.%s" % (route, differ), case_sequence,
+                         var={"source": "object", "n": 4, "k": 0, "nmu": 1, "differ": differ, "route": route})
+            chk.case("sequence.runner.parts.%s.degree" % route, case_sequence, var={"source": "raw", "n": 3, "differ": "degree", "route": route})
     if thorough:
         for n in (2, 3, 5):
             chk.case("interpolator.raw-card.n%d" % n, case_interpolator, var={"source": "raw", "n": n})
